@@ -1,4 +1,5 @@
 """C03 C04 C05 C07 C10 C11 C19 C20 — single-connection properties over the connection harness."""
+import re
 import json, os, random
 import vlib, connlib as L, cmdgen as G
 from vlib import Check
@@ -733,12 +734,14 @@ def run_c10(tier, seed):
                         after.append(dict(line=L.mkcase(steps, conns=2 if two else 1, default="mn"), key=(gname, tuple(gargs)), two=two,
                                           desc="%s [%s] ; then %s%s" % (req_desc(bname, bargs), kind, req_desc(gname, gargs), " on another connection" if two else "")))
     alone_l = list(alone.values())
+    def _canon_call(t):       # (absolute expiry times depend on the second the request was served in; the relative part stays)
+        return re.sub(r"t=-?\d+;", "t=;", t)
     for c in run_cases(chk, alone_l):
-        c["calls"] = sorted(x[4] for x in L.calls_of(c["iobs"].conns[0][1]))
+        c["calls"] = sorted(_canon_call(x[4]) for x in L.calls_of(c["iobs"].conns[0][1]))
     for c in run_cases(chk, after):
         base = alone[c["key"]].get("calls")
         evs = c["iobs"].conns[1 if c["two"] else 0][1]
-        got = sorted(x[4] for x in L.calls_of(evs))
+        got = sorted(_canon_call(x[4]) for x in L.calls_of(evs))
         if not c["two"]:
             # the refused request itself made no call: all calls of this connection belong to the well-formed one
             pass
